@@ -801,8 +801,11 @@ func (vm *VirtualMachine) pop() object.Object {
 }
 
 func (vm *VirtualMachine) push(obj object.Object) {
+	// Store before moving the stack pointer: when the stack is full the index
+	// panic (reported as the evaluation's error) must leave sp inside the
+	// stack, or everything that looks at the stack afterwards panics too
+	vm.stack[vm.sp+1] = obj
 	vm.sp++
-	vm.stack[vm.sp] = obj
 }
 
 func (vm *VirtualMachine) swap(pos int) {
@@ -1000,9 +1003,9 @@ func (vm *VirtualMachine) activateFunction(fp, ip int, fn *object.Function, loca
 	code := vm.loadCode(fn.Code())
 	returnAddr := vm.ip
 	returnSp := vm.sp
+	vm.activeFrame = &vm.frames[fp] // panics before fp is changed when the frame stack is full
 	vm.fp = fp
 	vm.ip = ip
-	vm.activeFrame = &vm.frames[fp]
 	vm.activeFrame.ActivateFunction(fn, code, returnAddr, returnSp, locals)
 	vm.activeCode = code
 	return vm.activeFrame
